@@ -90,7 +90,16 @@ def collinear_strategy(draw, tier):
         axis[k % 3] = 1 if k < 3 else -1
         c = [far * draw(st.sampled_from([1, 1, 0, -1])) for _ in range(3)]
         c[k % 3] = far
-        pos = [_m.copysign(_m.ceil(abs(p) * 64) / 64, p) for p in pos]
+        # every *spacing* is rounded up to the grid (rounding the positions themselves could shorten a compartment)
+        def _snap(arm):
+            out, prev_o, prev_n = [], 0.0, 0.0
+            for v in arm:
+                prev_n += _m.ceil((v - prev_o) * 64) / 64
+                prev_o = v
+                out.append(prev_n)
+            return out
+
+        pos = [0.0] + _snap(xa) + ([-v for v in _snap(xb)] if two else [])
     else:
         far = None
     return {"session": draw(st.sampled_from([None, None, "same-source-measured-before", "failed-measurement-before", "both"])),
